@@ -59,7 +59,7 @@ def gen_faulted(rng, tier, index):
     """Sessions that go on after a failed iteration (continue_with_unconverged, forced fixed-point / Newton
     failures at a few steps): the steps stored then are stored steps like any other for the quaternion clause."""
     name = ["Moreau", "Rattle", "BackwardEuler"][index % 3]
-    scene = gen_contact_scene(rng, nspheres=int(rng.integers(1, 3)), allow_s2s=False)
+    scene = gen_contact_scene(rng, nspheres=int(rng.integers(1, 3)), allow_s2s=True)
     for b in scene["bodies"]:
         if b["kind"] == "rigid":
             b["w"] = (np.array(b["w"]) + rng.normal(size=3) * 3).tolist()
